@@ -30,6 +30,8 @@ pub struct ConcProfile {
   /// only the blocking single-item forms (`send` / `recv`), no chaos ops in between: the plain
   /// park / wake handshake, repeated on a channel that is full or empty most of the time
   pub blocking_only: bool,
+  /// numerator (over 6) of the chance that a producer's "life-cycle slot" closes its own handle
+  pub close_own_in: u64,
 }
 
 impl ConcProfile {
@@ -46,6 +48,7 @@ impl ConcProfile {
       max_tokens_per_producer: 10,
       caps: vec![1, 1, 2, 2, 3, 4, 5, 8],
       blocking_only: false,
+      close_own_in: 1,
     }
   }
 }
@@ -87,7 +90,16 @@ impl ConcFamily {
         2 if fl.multi_producer() => ops.push(POp::CloneDrop),
         3 => ops.push(POp::Observe),
         4 => ops.push(POp::Yield),
-        5 if p.lifecycle && rng.chance(1, 6) => ops.push(POp::CloseOwn),
+        5 if p.lifecycle && rng.chance(p.close_own_in, 6) => {
+          ops.push(POp::CloseOwn);
+          // ... and keep going on a conversion or a clone of the closed handle: whatever that is,
+          // it must not bring a channel back that receivers already saw Disconnected
+          match rng.below(4) {
+            0 if p.asyncness == 2 && fl.has_conversions() => ops.push(POp::Convert),
+            1 if fl.multi_producer() => ops.push(POp::CloneSwap),
+            _ => {}
+          }
+        }
         _ => {}
       }
       let form = if fl.has_batch() {
@@ -136,7 +148,18 @@ impl ConcFamily {
     let last_form = if !p.blocking_only && fl.has_batch() && rng.chance(1, 3) { RecvForm::Batch } else { RecvForm::Single };
     ops.push(COp::Recv { form: last_form, max: rng.range(1, 3) as u8, timeout_ns: 0, plan: Plan { swap_waker: rng.chance(1, 6), ..Plan::NONE } });
     let quota = if allow_quota && p.lifecycle && rng.chance(1, 4) { Some(rng.range(1, total.max(1)) as u16) } else { None };
-    let at_end = if p.lifecycle { *rng.pick(&[AtEnd::Drop, AtEnd::Drop, AtEnd::Close, AtEnd::CloseThenUse]) } else { AtEnd::Drop };
+    let at_end = if p.lifecycle {
+      match rng.below(10) {
+        0..=3 => AtEnd::Drop,
+        4 | 5 => AtEnd::Close,
+        6 | 7 => AtEnd::CloseThenUse,
+        8 if p.asyncness == 2 && fl.has_conversions() => AtEnd::CloseThenConvertUse,
+        9 if fl.multi_consumer() => AtEnd::CloseThenCloneUse,
+        _ => AtEnd::CloseThenUse,
+      }
+    } else {
+      AtEnd::Drop
+    };
     Consumer { ops, quota, at_end }
   }
 }
@@ -356,15 +379,6 @@ impl Family for ConcFamily {
 /// Keep a scenario inside the family's rules (used after generation and after each shrink step).
 pub fn sanitize(sc: &mut ChanSc) {
   for p in sc.producers.iter_mut() {
-    // cloning a handle that was close()d is outside the properties (is the clone a live
-    // sender?): no clone operations after CloseOwn
-    if let Some(pos) = p.ops.iter().position(|o| matches!(o, POp::CloseOwn)) {
-      let mut i = 0;
-      p.ops.retain(|o| {
-        i += 1;
-        i - 1 <= pos || !matches!(o, POp::CloneSwap | POp::CloneDrop)
-      });
-    }
     for op in p.ops.iter_mut() {
       if let POp::Send { form, n, .. } = op {
         if matches!(form, SendForm::Single | SendForm::Try) {
